@@ -4,7 +4,6 @@ package actor
 
 import (
 	"context"
-	"sync"
 	"sync/atomic"
 
 	"github.com/tochemey/goakt/v4/internal/address"
@@ -18,23 +17,20 @@ func init() {
 	vRegister("vC11_winnerCancelled", vC11_winnerCancelled)
 }
 
-// ---- ghost actor tree (name -> node), substituted for the tree operations the spawn path uses
-var vC11_mu sync.Mutex
+// ---- ghost actor tree (name -> node), substituted for the tree operations the spawn path uses. The ghost operations
+// contain no synchronisation operation, so in the concurrency mode each of them executes atomically (switch points are
+// the synchronisation operations of the real code between them).
 var vC11_nodes map[string]*pidNode
 var vC11_names map[*PID]string
 var vC11_created int // instances started (initialisation succeeded) and never stopped
 var vC11_aborted int // instance initialisations aborted by the caller's context
 
 func vC11_nodeByName(t *tree, name string) (*pidNode, bool) {
-	vC11_mu.Lock()
 	n, ok := vC11_nodes[name]
-	vC11_mu.Unlock()
 	return n, ok
 }
 func vC11_nodeByID(t *tree, id string) (*pidNode, bool) { return vC11_nodeByName(t, id) }
 func vC11_addNode(t *tree, parent, pid *PID) error {
-	vC11_mu.Lock()
-	defer vC11_mu.Unlock()
 	name := vC11_names[pid]
 	if _, ok := vC11_nodes[name]; ok {
 		return errNodeAlreadyExists
@@ -45,11 +41,7 @@ func vC11_addNode(t *tree, parent, pid *PID) error {
 	return nil
 }
 func vC11_addWatcher(t *tree, pid, watcher *PID) {}
-func vC11_pidName(pid *PID) string {
-	vC11_mu.Lock()
-	defer vC11_mu.Unlock()
-	return vC11_names[pid]
-}
+func vC11_pidName(pid *PID) string              { return vC11_names[pid] }
 func vC11_ref(x *actorSystem, name string) *address.Address {
 	return address.NewReference(name, "sys", "host", 9000)
 }
@@ -59,17 +51,13 @@ func vC11_ref(x *actorSystem, name string) *address.Address {
 // nothing is left running.
 func vC11_configPID(x *actorSystem, ctx context.Context, name string, actor Actor, opts ...SpawnOption) (*PID, error) {
 	if err := ctx.Err(); err != nil {
-		vC11_mu.Lock()
 		vC11_aborted++
-		vC11_mu.Unlock()
 		return nil, err
 	}
 	pid := &PID{}
-	pid.setState(runningState, true)
-	vC11_mu.Lock()
+	pid.state.Store(uint32(runningState))
 	vC11_names[pid] = name
 	vC11_created++
-	vC11_mu.Unlock()
 	return pid, nil
 }
 
